@@ -25,7 +25,8 @@ enum OpKind
     OP_STATUS = 9,     // operator action on the status tracker (what: 1 remove device, 2 remove interface, 3 clear)
     OP_BUILD = 10,     // payload builder step (C13)
     OP_PROBE = 11,     // direct validity probe of a faulted payload (C03)
-    OP_STATUPD = 12    // Status::update with a packet assembled through the API (not decoded from the wire)
+    OP_STATUPD = 12,   // Status::update with a packet assembled through the API (not decoded from the wire)
+    OP_LIFE = 13       // object lifecycle event: obj 0 receiver's decoder, 1 a capture module's encoder (node=), 2 status tracker; how 1..8 (adapter.cpp)
 };
 
 // fault operators (sub-item "f", key type)
